@@ -1298,9 +1298,11 @@ fn generate(seed: u64, n: usize, path: &str, tier: &str) -> std::io::Result<()> 
     gen_exhaustive_single(&mut g, 3, &SCRIPTS, &['E', 'L', 'F', 'P'], false);
     gen_exhaustive_single(&mut g, 1, &SCRIPTS[..4], &['E', 'L', 'F'], true);
     gen_exhaustive_single(&mut g, 2, &SCRIPTS[..4], &['E', 'L', 'F'], true);
+    // four overlapping dispatches: complete / abort only, every order (both tiers)
+    gen_exhaustive_single(&mut g, 4, &SCRIPTS[..2], &['E', 'L', 'F', 'P'], false);
     if thorough {
-        gen_exhaustive_single(&mut g, 4, &SCRIPTS[..4], &['E', 'F'], false);
-        gen_exhaustive_single(&mut g, 3, &SCRIPTS[..4], &['E', 'F'], true);
+        gen_exhaustive_single(&mut g, 4, &SCRIPTS[..3], &['E', 'F'], false);
+        gen_exhaustive_single(&mut g, 3, &SCRIPTS[..3], &['E', 'F'], true);
     }
     for nd in 1..=3 {
         gen_exhaustive_multi(&mut g, nd, false);
